@@ -1,7 +1,7 @@
 (* Entry points of the executable model: [dispatch O op input] for the extracted driver and for
    evaluation inside Coq. Each operation decodes its input, runs the model and encodes the result. *)
 Require Import Model.Base Model.Expr Model.Simplify Model.Split Model.Trie Model.Overlap
-               Model.LicTok Model.BoolParse Model.Licensing Model.Codec Model.History.
+               Model.LicTok Model.BoolParse Model.Licensing Model.Codec Model.History Model.Threads.
 Open Scope Z_scope.
 
 Definition bad_input : data := DL [DI (-1)].
@@ -102,6 +102,28 @@ Definition e_obs (o : obs) : data :=
   | ObText s => DL [DI 4; e_str s]
   end.
 
+Definition d_instr (d : data) : option instr :=
+  match d with
+  | DI 0 => Some IRead | DI 1 => Some IAlloc | DI 2 => Some IAdd | DI 3 => Some IFinalize
+  | DI 4 => Some IPublish | DI 5 => Some IReturn | _ => None
+  end.
+Definition e_instr (i : instr) : data :=
+  DI (match i with IRead => 0 | IAlloc => 1 | IAdd => 2 | IFinalize => 3 | IPublish => 4 | IReturn => 5 end).
+(* the statement each scheduled step executes (none when the thread has returned), then the final state *)
+Fixpoint sched_trace (p : prog) (g : gstate) (sched : list nat) : list data * gstate :=
+  match sched with
+  | [] => ([], g)
+  | t :: sched' =>
+      let cur := match nth_error (threads g) t with
+                 | Some th => match result th with
+                              | Some _ => DL []
+                              | None => match nth_error p (pc th) with Some i => DL [e_instr i] | None => DL [] end
+                              end
+                 | None => DL []
+                 end in
+      let '(tr, g') := sched_trace p (tstep p g t) sched' in (cur :: tr, g')
+  end.
+
 Definition dispatch (O : oracle) (op : Z) (d : data) : data :=
   match op, d with
   | 1, DL [a; b] =>
@@ -169,6 +191,15 @@ Definition dispatch (O : oracle) (op : Z) (d : data) : data :=
       | Some e => e_outcome (e_opt e_expr)
                     (combine_parsed (args_of e) (match e with Or _ => OpOr | _ => OpAnd end) (negb (u =? 0)))
       | None => bad_input
+      end
+  | 18, DL [p; DI n; sc] =>
+      match d_list d_instr p, d_list d_nat sc with
+      | Some p, Some sc =>
+          let '(tr, g) := sched_trace p (start (Z.to_nat n)) sc in
+          DL [DL tr;
+              e_list (fun th => DL [e_nat (pc th); e_opt e_bool (result th)]) (threads g);
+              e_opt e_nat (slot g); e_bool (shape_safe p)]
+      | _, _ => bad_input
       end
   | 17, ops =>
       match d_list d_hop ops with
